@@ -5,6 +5,7 @@ package agent
 import (
 	"github.com/postalsys/muti-metroo/internal/crypto"
 	"github.com/postalsys/muti-metroo/internal/identity"
+	"github.com/postalsys/muti-metroo/internal/peer"
 	"github.com/postalsys/muti-metroo/internal/protocol"
 )
 
@@ -37,4 +38,15 @@ func VerifC04StreamKeys(a *Agent) map[uint64][crypto.KeySize]byte {
 		}
 	}
 	return out
+}
+
+// VerifC04PeerMgr exposes the agent's peer manager (to attach a capturing peer).
+func VerifC04PeerMgr(a *Agent) *peer.Manager { return a.peerMgr }
+
+// VerifC04FileOpen / VerifC04FileData drive the exit side of a file DOWNLOAD stream.
+func VerifC04FileOpen(a *Agent, peerID identity.AgentID, streamID, requestID uint64, pub [crypto.KeySize]byte) {
+	a.handleFileDownloadStreamOpen(peerID, streamID, requestID, pub)
+}
+func VerifC04FileData(a *Agent, peerID identity.AgentID, streamID uint64, data []byte, flags uint8) {
+	a.handleFileTransferStreamData(peerID, streamID, data, flags)
 }
